@@ -292,7 +292,11 @@ def boundary_password_cases():
                 continue
             h = c.handler(s)
             kw = fc.ctx_kwds(h)
-            for pw in ("", " ", "\u00e9"):
+            pws = ["", " ", "\u00e9"]
+            if getattr(h, "prefix", None) and isinstance(h.prefix, str):
+                # a wrapper whose body is free text (roundup_plaintext): a password that itself begins with the wrapper's tag
+                pws += [h.prefix + "hunter2", h.prefix + h.prefix]
+            for pw in pws:
                 try:
                     hh = h.using(rounds=max(h.min_rounds, 1)) if "rounds" in (h.setting_kwds or ()) and s not in ("sun_md5_crypt", "bsdi_crypt", "ldap_bsdi_crypt") else h
                     hs = hh.hash(pw, **kw)
@@ -305,7 +309,7 @@ def boundary_password_cases():
                     who = c.identify(hs)
                     if who != s and (label, who, s) in KNOWN_OVERLAPS:
                         continue        # recorded finding (an earlier scheme of the context claims the string)
-                    obs = (who, c.verify(pw, hs, **kw), c.verify(pw + "x", hs, **kw))
+                    obs = (who, c.verify(pw, hs, **kw), c.verify("x" + pw, hs, **kw))          # another password: differs in the FIRST byte (truncating formats)
                 except Exception as e:  # noqa: BLE001
                     obs = errname(e) + ": " + str(e)[:80]
                 yield ("boundary-password", inp, obs == (s, True, False), obs, (s, True, False))
